@@ -94,6 +94,10 @@ class MidiFile(object):
                         if current_length - duration != 0:
                             b.current_beat -= 1.0 / current_length
                             b.current_beat += 1.0 / duration
+                    elif len(t.bars) == 0:
+                        # time that passes before the first entry of the track is a rest
+                        b.bar.append([0.0, duration, NoteContainer()])
+                        b.current_beat = 1.0 / duration
                     if not b.place_notes(NoteContainer(), duration):
                         t + b
                         b = Bar(key, meter)
